@@ -150,7 +150,7 @@ def precise_inst_ht(vert_list, spacing, offset):
     """
     if len(vert_list) < 3:
         raise ValueError('ValueError: 3 or more vertical angles required')
-    vert_list.sort(reverse=True)
+    vert_list = sorted(vert_list, reverse=True)
     vert_pairs = [(va1, va2) for va1, va2 in zip(vert_list, vert_list[1:])]
     base_ht = []
     height_comp = []
